@@ -41,6 +41,44 @@ try_get_by_name = Fn(F, "try_get_by_name", impl=IMPL, impl_header=IMPL, slot="ut
     ],
     sig_rewrites=[Rewrite("where S: std::borrow::Borrow<str> + std::fmt::Debug", "where S: std::borrow::Borrow<str>", rule="R1", why="Debug bound dropped (no Debug specs in the verified set)")])
 
+PARENT = "old(self).spec_parent(None, texts(ctx.hierarchy@.subrange(0, hierarchy_level as int)))"
+get_children_mut = Fn(F, "get_children_mut", impl=IMPL, impl_header=IMPL, slot="util", mode="stub", ret="res", key="SymbolManager::get_children_mut",
+    requires=[C("ref_ok", "old(self).ref_ok(parent_ref)")],
+    ensures=[
+        C("is_the_children_map", "*res == *old(self).children_of(parent_ref)"),
+        C("frame", "(match parent_ref { None => final(self).globals == *final(res) && final(self).decls@ == old(self).decls@,"
+                   " Some(p) => final(self).globals == old(self).globals && final(self).decls@.len() == old(self).decls@.len()"
+                   " && final(self).decls@[p.0 as int].children == *final(res)"
+                   " && (forall|i: int| 0 <= i < old(self).decls@.len() && i != p.0 ==> #[trigger] final(self).decls@[i] == old(self).decls@[i]) })"),
+        C("report_as_kept", "final(self).report_as == old(self).report_as"),
+    ])
+
+declare = Fn(F, "declare", impl=IMPL, impl_header=IMPL, slot="util", ret="res", key="SymbolManager::declare", props=["C15", "C03"],
+    requires=[C("wf", "old(self).wf()", ["C03"])],
+    ensures=[
+        C("skipped_level_is_an_error", "hierarchy_level > ctx.hierarchy@.len() ==> res is Err", ["C15"]),
+        C("duplicate_is_an_error", "hierarchy_level <= ctx.hierarchy@.len() && spec_lookup(old(self).children_of(%s), name@) is Some ==> res is Err" % PARENT, ["C15"]),
+        C("otherwise_declared", "hierarchy_level <= ctx.hierarchy@.len() && spec_lookup(old(self).children_of(%s), name@) is None ==> res is Ok" % PARENT, ["C15"]),
+        C("err_is_loud", "res is Err ==> final(report).msgs() > old(report).msgs()", ["C03", "C15"]),
+        C("ok_is_clean", "res is Ok ==> final(report).msgs() == old(report).msgs()", ["C03"]),
+        C("new_reference_is_next_index", "res is Ok ==> res->Ok_0.0 == old(self).decls@.len() && final(self).decls@.len() == old(self).decls@.len() + 1", ["C15"]),
+        C("bound_under_its_parent", "res is Ok ==> forall|k: Seq<char>| #[trigger] spec_lookup(final(self).children_of(%s), k) == (if k == name@ { Some(res->Ok_0) } else { spec_lookup(old(self).children_of(%s), k) })" % (PARENT, PARENT), ["C15"]),
+        C("table_stays_well_formed", "res is Ok ==> final(self).wf()", ["C15", "C03"]),
+        C("other_scopes_untouched", "res is Ok ==> (forall|i: int, k: Seq<char>| 0 <= i < old(self).decls@.len() && !(%s is Some && (%s->0).0 == i) ==> #[trigger] spec_lookup(&final(self).decls@[i].children, k) == spec_lookup(&old(self).decls@[i].children, k))"
+          " && (%s is Some ==> forall|k: Seq<char>| #[trigger] spec_lookup(&final(self).globals, k) == spec_lookup(&old(self).globals, k))" % (PARENT, PARENT, PARENT), ["C15"]),
+        C("error_changes_nothing", "res is Err ==> final(self).decls@ == old(self).decls@ && final(self).globals == old(self).globals", ["C15"]),
+        C("declaration_records_its_scope", "res is Ok ==> final(self).decls@[res->Ok_0.0 as int].depth == hierarchy_level && final(self).decls@[res->Ok_0.0 as int].ctx.hierarchy@ == ctx.hierarchy@.subrange(0, hierarchy_level as int).push(name)", ["C15"]),
+    ],
+    rewrites=[
+        Rewrite("children.get(&name)", "verif_lookup_string(children, &name)", rule="R8", why="HashMap<String,_>::get -> prelude wrapper (uninterpreted lookup model)"),
+        Rewrite("        children.insert(\n            name.clone(),\n            item_ref);", "        verif_insert(children, name.clone(), item_ref);", rule="R8", why="HashMap<String,_>::insert -> prelude wrapper (uninterpreted lookup model)"),
+        Rewrite("            let mut new_hierarchy = ctx.hierarchy[0..hierarchy_level]\n                .iter()\n                .cloned()\n                .collect::<Vec<_>>();",
+                "            let mut new_hierarchy = verif_clone_strings(&ctx.hierarchy[0..hierarchy_level]);", rule="R16", why="iterator adapter chain over a slice of Strings -> prelude wrapper"),
+        Rewrite("            children: std::collections::HashMap::new(),", "            children: verif_new_children(),", rule="R8", why="empty children map in the lookup model"),
+        Rewrite("        self.span_refs.insert(\n            span,\n            item_ref);\n", "", rule="R1", why="statement on the dropped field `span_refs` deleted"),
+    ],
+)
+
 UNIT = Unit(
     "U-symbols", "u_symbols/skeleton.rs",
     items=report_fns("stub", "diagn") + itemref_items("util") + [
@@ -49,7 +87,7 @@ UNIT = Unit(
         Type(F, "struct", "SymbolDecl", slot="util", attrs=["#[verifier::accept_recursive_types(T)]"]),
         Type(F, "enum", "SymbolKind", slot="util", derive="Clone, Copy"),
         Type(F, "struct", "SymbolContext", slot="util"),
-        get, get_children, traverse, get_parent, try_get_by_name,
+        get, get_children, traverse, get_parent, try_get_by_name, get_children_mut, declare,
     ],
     serves=["C15", "C03"],
     description="util::SymbolManager lookups: dot-level rule and dotted-path descent",
